@@ -7,5 +7,5 @@ MCShapes == GenSortShapes(MCLong)
 MCProps == {"C15"}
 MCScript == <<"SetObj", "NewEmpty", "CopyTo", "FreshObj", "CopyFrom", "SetPrior", "CopyFrom">>
 ASSUME PrintT("SHAPES " \o ToJson(MCShapes))
-INSTANCE Session WITH Shapes <- MCShapes, Script <- MCScript, Deep <- MCDeep, Props <- MCProps, ObjMode <- "all", RawMode <- "plans"
+INSTANCE Session WITH Shapes <- MCShapes, Script <- MCScript, Deep <- MCDeep, Props <- MCProps, ObjMode <- "all", RawMode <- "plans", EmptyMode <- "plain"
 ====
